@@ -1,5 +1,5 @@
 (* GENERATED on every run by harness/C13.py translate() with translate/pyedges2coq.py from
-   /tmp/tie-edges-wt/psiaudio/pipeline.py - do not edit.  Vocabulary: coq/Edges/TiePrims.v, coq/Runs/NumpyPrims.v.  Tie theorems: coq/Edges/ProofsTie.v. *)
+   /repo/psiaudio/pipeline.py - do not edit.  Vocabulary: coq/Edges/TiePrims.v, coq/Runs/NumpyPrims.v.  Tie theorems: coq/Edges/ProofsTie.v. *)
 From PV Require Import Common.ListX Common.PySlice Runs.Model Runs.NumpyPrims Edges.Model Edges.TiePrims gen.RunsGen.
 Open Scope Z_scope.
 
@@ -26,7 +26,7 @@ let events_ := if ((str_in detect_ [DRising; DBoth]) && (lb >? 0))
  then let events_ := py_append events_ (Rising, (lb + s0)) in
 events_
  else events_ in
-let events_ := if ((str_in detect_ [DFalling; DBoth]) && (ub <=? (arr_len samples)))
+let events_ := if ((str_in detect_ [DFalling; DBoth]) && (ub <? (arr_len samples)))
  then let events_ := py_append events_ (Falling, (ub + s0)) in
 events_
  else events_ in
